@@ -21,6 +21,8 @@ type C08Rule struct {
 	Desc string `json:"desc"`
 	// NoSal: the rule header has no salience clause (Sal is 0 then)
 	NoSal bool `json:"nosal,omitempty"`
+	// Zeros: leading zeros in the spelling of the salience
+	Zeros int `json:"zeros,omitempty"`
 }
 
 type C08Op struct {
@@ -53,7 +55,7 @@ func c08Text(rules []C08Rule, tagBase int64) (string, map[string]int64) {
 	for i, r := range rules {
 		tag := tagBase + int64(i)
 		tags[r.Name] = tag
-		sal := fmt.Sprintf(" salience %d", r.Sal)
+		sal := " salience " + salText(r.Sal, r.Zeros)
 		if r.NoSal {
 			sal = ""
 		}
@@ -74,6 +76,8 @@ func genC08Rules(t *rapid.T, pfx string, step int) []C08Rule {
 		r := C08Rule{Name: perm[i], Sal: sal, Desc: fmt.Sprintf("d%d_%d", step, i)}
 		if pct(t, fmt.Sprintf("%snosal%d", pfx, i), 12) {
 			r.NoSal, r.Sal = true, 0
+		} else if pct(t, fmt.Sprintf("%szeros%d", pfx, i), 12) {
+			r.Zeros = uni(t, fmt.Sprintf("%snzeros%d", pfx, i), 1, 2)
 		}
 		out = append(out, r)
 	}
